@@ -16,9 +16,8 @@ open Gen.AllocSites
 /-- a count read with `ReadByte` is at most 255: the allocation is bounded by a constant -/
 def smallCount (s : Site) : Bool := s.source == "ReadByte"
 
-/-- unguarded sites recorded as known findings rather than repaired
-    (proposed/C04/known_findings.json, key `alloc:pack.ReadShortArray`; model: FailClosed.KnownSites) -/
-def knownUnguarded : List String := ["pack.ReadShortArray"]
+/-- unguarded sites recorded as known findings rather than repaired: none -/
+def knownUnguarded : List String := []
 
 /-- every listed allocation is guarded, bounded by an 8-bit count, or a listed known finding -/
 theorem all_sites_guarded :
